@@ -16,7 +16,7 @@ RULE = ('(a) TruncationMonitor on every depth-0 public UTPM call with D>1 while 
         'D\'=1 forward result against the program run on plain ndarrays; eigen/singular vectors only when the eigenvalues of A_0 are '
         'distinct; class = (call or program, D, shapes); non-trivial = some input coefficient of order >= D\' is non-zero')
 ASSUMPTIONS = ['the same operation on the truncated polynomial is the reference', 'eig is excluded (supports D<=2 only by its own assertion)']
-REQUIRED = ['truncation-shadow', 'program:forward', 'program:reverse', 'program:D1-equals-numpy', 'hostile:large-high-coefficients', 'pattern', 'kink', 'highD', 'late-complex', 'extract', 'compound']
+REQUIRED = ['truncation-shadow', 'program:forward', 'program:reverse', 'program:D1-equals-numpy', 'hostile:large-high-coefficients', 'pattern', 'kink', 'highD', 'late-complex', 'extract', 'compound', 'ties']
 
 _mon = None
 
@@ -43,7 +43,7 @@ def cases(tier, seed):
     if tier == 'thorough':
         out.insert(0, pool.ambient_docs_case(PID))
     for prog in progs.cat():
-        if {'fancy', 'nonunique'} & prog.tags:
+        if {'fancy', 'augmented', 'nonunique'} & prog.tags:
             continue
         for rep in range(1 if tier == 'quick' else 3):
             out.append({'kind': 'program', 'seed': case_seed('C12', seed, prog.name, rep), 'params': {'prog': prog.name, 'P': 1 + rep % 2, 'D': [3, 2, 5][rep % 3]}})
@@ -71,6 +71,8 @@ def cases(tier, seed):
             out.append({'kind': 'latecomplex', 'seed': case_seed('C12', seed, 'latecomplex', D, k), 'params': {'D': D, 'k': k}})
     for i in range(16 if tier == 'quick' else 160):
         out.append({'kind': 'compound', 'seed': case_seed('C12', seed, 'compound', i), 'params': {'D': 3 + i % 4, 'norm': [0.3, 2.0, 6.0, 10.0][i % 4], 'n': 2 + (i // 4) % 3}})
+    for i in range(12 if tier == 'quick' else 200):
+        out.append({'kind': 'ties', 'seed': case_seed('C12', seed, 'ties', i), 'params': {'D': 3 + i % 4, 'P': 1 + i % 2}})
     for i in range(12 if tier == 'quick' else 120):
         out.append({'kind': 'extract', 'seed': case_seed('C12', seed, 'extract', i), 'params': {'D': 3 + i % 4, 'N': 1 + i % 3}})
     for i in range(24 if tier == 'quick' else 200):
@@ -98,6 +100,8 @@ def run_case(ctx, case):
         return _extract(ctx, case['params'], rng)
     if case['kind'] == 'compound':
         return _compound(ctx, case['params'], rng)
+    if case['kind'] == 'ties':
+        return _ties(ctx, case['params'], rng)
     if case['kind'] == 'pattern':
         return _pattern(ctx, case['params'], rng)
     if case['kind'] == 'kink':
@@ -122,6 +126,47 @@ def _pattern(ctx, p, rng):
                 ctx.skip('sut-raises:pattern')
     if sum(ctx.violation_count.values()) == before:
         ctx.ok('pattern', ('pattern', p['fn'], p['pattern'], p['D']))
+
+
+def _ties(ctx, p, rng):
+    """selections decided at the base point - max, argmax, maximum / minimum of two operands, absolute / sign at an exact zero,
+    clipping exactly on a bound - when several candidates TIE there and differ in their higher coefficients: whichever candidate is
+    taken, the low coefficients of the result do not change when coefficients are appended"""
+    D, P = p['D'], p['P']
+    n = 5
+    a = rng.normal(size=(D, P, n))
+    for pp in range(P):
+        a[0, pp] = np.round(a[0, pp], 1)
+        k = rng.choice(n, size=3, replace=False)
+        a[0, pp, k] = np.max(a[0, pp]) + 1.0                 # three entries share the maximal base value
+    b = rng.normal(size=(D, P, n)); b[0] = a[0]               # two operands that agree in the base point
+    z = rng.normal(size=(D, P, n)); z[0, :, ::2] = 0.0        # exact zeros in the base point
+    c = rng.normal(size=(D, P, n)); c[0, :, :2] = 0.5; c[0, :, 2:4] = -0.5
+    calls = [('max', lambda d: UTPM.max(UTPM(d[0].copy())), (a,)), ('argmax', lambda d: UTPM.argmax(UTPM(d[0].copy())), (a,)),
+             ('maximum', lambda d: algopy.maximum(UTPM(d[0].copy()), UTPM(d[1].copy())), (a, b)), ('minimum', lambda d: algopy.minimum(UTPM(d[0].copy()), UTPM(d[1].copy())), (a, b)),
+             ('absolute', lambda d: algopy.absolute(UTPM(d[0].copy())), (z,)), ('sign', lambda d: algopy.sign(UTPM(d[0].copy())), (z,)),
+             ('clip', lambda d: algopy.special.botched_clip(-0.5, 0.5, UTPM(d[0].copy())), (c,))]
+    probe.S.suppress = True
+    try:
+        for nm, f, data in calls:
+            try:
+                full = f(data)
+            except Exception:
+                ctx.skip('sut-raises:ties:' + nm); continue
+            fd = full.data if isinstance(full, UTPM) else np.asarray(full)
+            for Dp in range(1, D):
+                try:
+                    part = f(tuple(x[:Dp] for x in data))
+                except Exception:
+                    ctx.skip('sut-raises:ties:' + nm); continue
+                pd = part.data if isinstance(part, UTPM) else np.asarray(part)
+                same = np.array_equal(fd[:Dp], pd, equal_nan=True) if isinstance(full, UTPM) else np.array_equal(fd, pd)
+                if not same:
+                    ctx.violation('ties:%s' % nm, {'function': nm, 'D': D, 'Dp': Dp, 'P': P}); break
+            else:
+                ctx.ok('ties', ('ties', nm, D, P))
+    finally:
+        probe.S.suppress = False
 
 
 def _compound(ctx, p, rng):
